@@ -45,7 +45,10 @@ func zzMust(err error) {
 	}
 }
 
-func zzNewMgrWorld(seed []byte) *zzMgrWorld {
+func zzNewMgrWorld(seed []byte) *zzMgrWorld { return zzNewMgrWorldPass(seed, zzPrvPass) }
+
+// zzNewMgrWorldPass: a manager created with the given private passphrase.
+func zzNewMgrWorldPass(seed, prvPass []byte) *zzMgrWorld {
 	w := &zzMgrWorld{db: memdb.New(), params: &chaincfg.MainNetParams}
 	root, err := hdkeychain.NewMaster(seed, w.params)
 	zzMust(err)
@@ -55,7 +58,7 @@ func zzNewMgrWorld(seed []byte) *zzMgrWorld {
 		if err != nil {
 			return err
 		}
-		return Create(ns, root, zzPubPass, zzPrvPass, w.params, zzFastScrypt, time.Unix(1600000000, 0))
+		return Create(ns, root, zzPubPass, prvPass, w.params, zzFastScrypt, time.Unix(1600000000, 0))
 	}))
 	w.open()
 	return w
